@@ -433,7 +433,8 @@ find_symbol(CPPScope *current_scope, CPPScope *global_scope,
 
   CPPDeclaration *sym;
   if (!_names.back().has_templ()) {
-    if (_names.size() > 1 && scope->get_simple_name() == get_simple_name()) {
+    if (_names.size() > 1 && scope->get_struct_type() != nullptr &&
+        scope->get_simple_name() == get_simple_name()) {
 /**
 
  */
@@ -474,7 +475,8 @@ find_symbol(CPPScope *current_scope, CPPScope *global_scope,
 
   CPPDeclaration *sym;
   if (!_names.back().has_templ()) {
-    if (_names.size() > 1 && scope->get_simple_name() == get_simple_name()) {
+    if (_names.size() > 1 && scope->get_struct_type() != nullptr &&
+        scope->get_simple_name() == get_simple_name()) {
 /**
 
  */
